@@ -21,18 +21,19 @@ func init() {
 			"R-bound — every reader readerForOffset returns (other than the empty reader) is wrapped by io.LimitReader whose byte bound is, as a linear expression, exactly (size of the first non-skipped part) - (offset - sizes of the skipped parts); on every feasible way out of the part-skipping loop that offset is strictly smaller than the part's size (the reader is never empty at a part boundary); the Seek into the part's data goes to exactly that in-part offset plus the part's 'offset' field, from the start. " +
 			"W-keys — the JSON keys the part writer (populateParts) and the static-set writer (SetStaticSetMembers) emit are exactly the JSON tags of the fields the readers (BytesPart; superset.Members / MergeSets / Parts) decode. " +
 			"W-spread — in (*Builder).SetStaticSetMembers every use of the members parameter is len, an indexed element or a sub-slice handed to SetStaticSetMembers of a builder created there; leaf case: the list stored under the Members key is filled from members[i] for every i = 0..len-1 of a counted loop; spread case, with all bounds evaluated as polynomials over SSA values (phis kept as atoms, i.e. the stride and count in force after all re-assignments): exactly one sub-slice members[lo(i):hi(i)] is taken on every iteration of a counted loop i = c..N-1 whose only exit is its test (test before the body, or after it with the same test guarding the entry), lo(c) = 0, hi(i) = lo(i+1), exactly one tail members[K:] with K = lo(N); every branch condition under which the tail is emitted is, as a polynomial, a comparison of that same K with len(members) that is true whenever K < len(members) — a condition that is computed only from inputs read before a stride/count phi and does not depend on that phi is the violation 'rest test uses a stale stride', any other shape is undecided; on every CFG path the blob of each created sub-set reaches, through appends and phis, both the returned list and the list whose complete traversal produces the value stored under the MergeSets key, and the result of the recursive call over a stride that is not the leaf capacity reaches the returned list; every combination of Members/MergeSets keys that some path writes is one that a successful return of staticSet computes its result from (the reader returns Members alone when present, so a blob with both is rejected); in staticSet the loops over Members and over MergeSets visit index 0..len-1, are left early only towards a non-nil error, and every member / every recursive result reaches the list each later successful return hands back. " +
+			"Effective body — W-parts-first (uploadBytes, writeFileChunks) and R-bound (readerForOffset) look for their sites not only in the named function but in its effective body: the function, its literals and, transitively (depth 4), the unexported functions of pkg/schema it calls statically; a parameter of such a helper that has one call site stands for the caller's argument, a result of such a helper for the value all its returns yield. 'Before' carries across calls: a call of a helper counts as passing a point inside it when every return of the helper lies behind that point, or — on the err == nil edge of the call — when every return that may report success does; a return that hands on a helper's results (return helper(...)) is replaced by the helper's own returns; branch facts at a helper's single call site hold inside the helper; a helper whose nil result is returned only behind a successful Get() / only on the 'nothing received' edge of the poll counts as that Get() / that poll. A helper with several call sites inside the effective body is not followed by value (its parameters stay opaque), which reports Undecided or a violation rather than passing. W-cap, W-spread and W-keys are still evaluated inside the one named function (plus its literals): moving part of the chunking loop's split decision, of the static-set slicing or of the static-set reader's loops into a helper is reported as Undecided/violated, not followed. " +
 			"NOT decided: byte-for-byte round-trip equality for any content, where the rolling checksum puts split points, the shape of the span tree, ReadAt/Seek arithmetic above readerForOffset, behaviour of the blob store underneath, overflow of the 64-bit size arithmetic; for static sets: the arithmetic of perSubset and subsetsNumber themselves (that stride*count <= len(members) so the slicing does not panic, that the rest and every leaf fit into one blob, that dropping the recursive result of the rest sub-set is harmless because rest < stride), termination and depth of the recursion, the order of the listed members.",
 		RuleDocs: map[string]string{
 			"W-cap":         "writeFileChunks: the chunk-length counter paired with (*bytes.Buffer).WriteByte; one obligation per loop back edge (bounded by a dominating comparison, or reset together with the buffer), one for the derived maximal chunk length against schema.maxBlobSize and constants.MaxBlobSize, one per uploadString call for 'payload = buffer content before Reset, ref = hash of payload'",
-			"W-parts-first": "uploadBytes: every start of the upload of the builder's own JSON (path search over the CFG with the facts type==file / Get() err==nil); (*uploadBytesFuture).Get: children joined, child error returned; every caller of uploadBytes/addBytesParts: the future is joined, attached or returned; writeFileChunks: every return classified as error-known-non-nil or success-after-drain-and-empty-error-channel",
-			"R-bound":       "readerForOffset: every returned reader (bound expression of its io.LimitReader, symbolically; in-part offset < part size on every feasible loop exit), and every Seek on the part's data",
+			"W-parts-first": "(sites looked up in the effective body: the function, its literals and the unexported same-package helpers it calls, arguments mapped to parameters) uploadBytes: every start of the upload of the builder's own JSON (path search over the CFG with the facts type==file / Get() err==nil); (*uploadBytesFuture).Get: children joined, child error returned; every caller of uploadBytes/addBytesParts: the future is joined, attached or returned; writeFileChunks: every return classified as error-known-non-nil or success-after-drain-and-empty-error-channel",
+			"R-bound":       "readerForOffset and the unexported helpers it calls (the skip loop, the Seek or the LimitReader may live in a helper; parameters stand for arguments, results for returned values): every returned reader (bound expression of its io.LimitReader, symbolically; in-part offset < part size on every feasible loop exit), and every Seek on the part's data",
 			"W-spread":      "SetStaticSetMembers: every use of members (len / element / sub-slice handed to a sub-set); one obligation each for the leaf traversal, the per-iteration sub-slice of the counted loop, first-slice-at-0, contiguity hi(i)=lo(i+1), rest start K=lo(N), the rest's emission condition (polynomial comparison of that K with len(members); stale-stride detection), the list behind the MergeSets key, per created sub-set 'blob reaches the returned list' and 'blob reaches the referenced list' on every path, the recursive result reaching the returned list, and per written key combination agreement with staticSet's successful returns; staticSet: per field Members/MergeSets full index range and 'kept until every successful return'",
 			"W-keys":        "writer/reader key agreement for bytes parts and static sets (go/types struct tags against map-index constants in the writer functions)",
 		},
 		Run:       runC15,
 		DesignRef: "DESIGN.md §4 C15",
-		Technique: "static analysis: dominance facts and interval reasoning on a loop counter, edge-sensitive CFG path search, symbolic (linear) evaluation of SSA integer expressions, polynomial normal forms of slice bounds with substitution of the loop variable (interval bookkeeping), forward path exploration of append/phi webs, backward value dependence, writer/reader table agreement",
-		LevelText: "Decides structural necessary conditions only: the chunker's hard size cap cannot be bypassed by any 'do not split' continue and agrees with the declared limits; a file schema blob is uploaded only after all of its parts were stored successfully and the chunk writer reports success only after all chunk uploads were joined without error; a reader for an offset is bounded by what is left of the part after the in-part offset and positioned at in-part offset + part offset; writers and readers agree on JSON keys; the sub-slices a large member list is cut into start at 0, are contiguous, are followed by a rest that starts where the loop stopped and is emitted whenever that point lies before the end (tested with the same stride and count), every created sub-set is both returned for upload and referenced by its parent, and the reader visits every member and every sub-set and keeps what it read. Does not decide that any concrete file or directory reads back equal, nor split points, tree shape, ReadAt arithmetic, the values of the static-set stride and count, recursion depth, or member order.",
+		Technique: "static analysis: effective-body (helper-transparent) site lookup with parameter/argument and result/return mapping and must-pass-through across static calls, dominance facts and interval reasoning on a loop counter, edge-sensitive CFG path search, symbolic (linear) evaluation of SSA integer expressions, polynomial normal forms of slice bounds with substitution of the loop variable (interval bookkeeping), forward path exploration of append/phi webs, backward value dependence, writer/reader table agreement",
+		LevelText: "Decides structural necessary conditions only: the chunker's hard size cap cannot be bypassed by any 'do not split' continue and agrees with the declared limits; a file schema blob is uploaded only after all of its parts were stored successfully and the chunk writer reports success only after all chunk uploads were joined without error; a reader for an offset is bounded by what is left of the part after the in-part offset and positioned at in-part offset + part offset; writers and readers agree on JSON keys; the sub-slices a large member list is cut into start at 0, are contiguous, are followed by a rest that starts where the loop stopped and is emitted whenever that point lies before the end (tested with the same stride and count), every created sub-set is both returned for upload and referenced by its parent, and the reader visits every member and every sub-set and keeps what it read. The upload-ordering and reader-bound clauses survive extraction of their code into unexported helpers (single call site, static call); the chunk-cap and static-set clauses are tied to the one function that contains the loop. Does not decide that any concrete file or directory reads back equal, nor split points, tree shape, ReadAt arithmetic, the values of the static-set stride and count, recursion depth, or member order.",
 	})
 }
 
@@ -254,6 +255,412 @@ func c15TriggersIn(top *ssa.Function, lit *ssa.Function) []CallSite {
 		}
 	}
 	return out
+}
+
+// ---------------------------------------------------------------------------
+// effective body: an anchor function plus the unexported same-package helpers
+// it calls statically (transitively), with parameters standing for the
+// caller's arguments and call results for the helper's returned values
+
+type c15Eff struct {
+	root  *ssa.Function
+	decl  []*ssa.Function              // root + helpers (declared functions), root first
+	funcs []*ssa.Function              // decl + all their nested literals
+	in    map[*ssa.Function]bool       // membership of funcs
+	sites map[*ssa.Function][]CallSite // helper -> its call sites inside the effective body
+	depth map[*ssa.Function]int
+}
+
+const c15EffDepth = 4
+
+func c15IsHelperOf(root, f *ssa.Function) bool {
+	if f == nil || f == root || f.Parent() != nil || len(f.Blocks) == 0 || f.Pkg == nil || f.Pkg != root.Pkg {
+		return false
+	}
+	return !token.IsExported(f.Name())
+}
+
+func c15Effective(root *ssa.Function) *c15Eff {
+	e := &c15Eff{root: root, in: map[*ssa.Function]bool{}, sites: map[*ssa.Function][]CallSite{}, depth: map[*ssa.Function]int{}}
+	var add func(f *ssa.Function, d int)
+	add = func(f *ssa.Function, d int) {
+		e.decl = append(e.decl, f)
+		e.depth[f] = d
+		all := c15AllFuncs(f)
+		for _, g := range all {
+			e.in[g] = true
+			e.funcs = append(e.funcs, g)
+		}
+		for _, g := range all {
+			for _, c := range CallsIn(g, false) {
+				h := c.Callee()
+				if !c15IsHelperOf(root, h) {
+					continue
+				}
+				e.sites[h] = append(e.sites[h], c)
+				if !e.in[h] && d < c15EffDepth {
+					add(h, d+1)
+				}
+			}
+		}
+	}
+	add(root, 0)
+	// call sites of helpers that were not entered (too deep) are of no use
+	for h := range e.sites {
+		if !e.in[h] {
+			delete(e.sites, h)
+		}
+	}
+	return e
+}
+
+// site: the one call site of helper f inside the effective body (nil when f is
+// the root, not a helper, or called from several places).
+func (e *c15Eff) site(f *ssa.Function) *CallSite {
+	if cs := e.sites[f]; len(cs) == 1 && f != e.root {
+		return &cs[0]
+	}
+	return nil
+}
+
+// resultOf: the value every return of helper h yields as result i (nil when
+// the returns disagree).
+func (e *c15Eff) resultOf(h *ssa.Function, i int) ssa.Value {
+	var out ssa.Value
+	for _, ri := range Returns(h) {
+		if i >= len(ri.Results) {
+			return nil
+		}
+		v := originValue(ri.Results[i])
+		if out != nil && out != v {
+			return nil
+		}
+		out = v
+	}
+	return out
+}
+
+// resolve follows v across the call boundaries of the effective body: a
+// parameter of a helper with one call site is the caller's argument, a result
+// of a helper call is the value the helper returns.
+func (e *c15Eff) resolve(v ssa.Value) ssa.Value {
+	for i := 0; i < 24 && v != nil; i++ {
+		v = originValue(v)
+		switch x := v.(type) {
+		case *ssa.Parameter:
+			f := x.Parent()
+			cs := e.site(f)
+			if cs == nil || !e.in[f] {
+				return v
+			}
+			idx := c15ParamIndex(f, x)
+			args := cs.Args()
+			if idx < 0 || idx >= len(args) {
+				return v
+			}
+			v = args[idx]
+			continue
+		case *ssa.Extract:
+			if call, ok := x.Tuple.(*ssa.Call); ok {
+				// (only for a helper with one call site: two calls of one
+				// helper yield two values)
+				if h := (CallSite{call.Parent(), call}).Callee(); h != nil && e.in[h] && h.Parent() == nil && h != e.root && e.site(h) != nil {
+					if rv := e.resultOf(h, x.Index); rv != nil {
+						v = rv
+						continue
+					}
+				}
+			}
+		case *ssa.Call:
+			if h := (CallSite{x.Parent(), x}).Callee(); h != nil && e.in[h] && h.Parent() == nil && h != e.root && e.site(h) != nil && h.Signature.Results().Len() == 1 {
+				if rv := e.resultOf(h, 0); rv != nil {
+					v = rv
+					continue
+				}
+			}
+		}
+		return v
+	}
+	return v
+}
+
+func (e *c15Eff) same(a, b ssa.Value) bool { return e.resolve(a) == e.resolve(b) }
+
+func (e *c15Eff) constInt(v ssa.Value) (int64, bool) { return ConstInt(e.resolve(v)) }
+
+// ctxFacts: branch conditions known at block b, including those known at the
+// (single) call site of b's function, transitively up to the root. Values in
+// them belong to different functions: compare through resolve.
+func (e *c15Eff) ctxFacts(b *ssa.BasicBlock) []CondFact {
+	facts := FactsAt(b)
+	f := b.Parent()
+	for d := 0; d < c15EffDepth+1; d++ {
+		cs := e.site(f)
+		if cs == nil {
+			break
+		}
+		facts = append(facts, FactsAt(cs.Block())...)
+		f = cs.Fn
+	}
+	return facts
+}
+
+// c15Point: "control is at instruction idx of block blk"; needOK != nil: and
+// the error result of that call (which is the instruction at idx) is nil.
+type c15Point struct {
+	blk    *ssa.BasicBlock
+	idx    int
+	needOK *ssa.Call
+}
+
+// constCond: a comparison that is decided once helper parameters are replaced
+// by the constants passed for them.
+func (e *c15Eff) constCond(cond ssa.Value) (known, val bool) {
+	cond, flip := c15StripNot(cond, true)
+	b, ok := cond.(*ssa.BinOp)
+	if !ok || !c15IsCmp(b.Op) {
+		return false, false
+	}
+	x, ok1 := e.resolve(b.X).(*ssa.Const)
+	y, ok2 := e.resolve(b.Y).(*ssa.Const)
+	if !ok1 || !ok2 || x.Value == nil || y.Value == nil || x.Value.Kind() != constant.Int || y.Value.Kind() != constant.Int {
+		return false, false
+	}
+	return true, constant.Compare(x.Value, b.Op, y.Value) == flip
+}
+
+// mustPassBlocks: every feasible path from the entry of via's function to
+// block target goes through block via.
+func (e *c15Eff) mustPassBlocks(via, target *ssa.BasicBlock) bool {
+	if via == target {
+		return true
+	}
+	fn := via.Parent()
+	seen := map[*ssa.BasicBlock]bool{}
+	var walk func(b *ssa.BasicBlock) bool
+	walk = func(b *ssa.BasicBlock) bool {
+		if b == via || seen[b] {
+			return false
+		}
+		seen[b] = true
+		if b == target {
+			return true
+		}
+		succs := b.Succs
+		if n := len(b.Instrs); n > 0 {
+			if ifi, ok := b.Instrs[n-1].(*ssa.If); ok && len(succs) == 2 {
+				if k, v := e.constCond(ifi.Cond); k {
+					if v {
+						succs = succs[:1]
+					} else {
+						succs = succs[1:]
+					}
+				}
+			}
+		}
+		for _, s := range succs {
+			if walk(s) {
+				return true
+			}
+		}
+		return false
+	}
+	return !walk(fn.Blocks[0])
+}
+
+// holdsAt: point v was passed on every path to point t (same function).
+func (e *c15Eff) holdsAt(v, t c15Point) bool {
+	if v.blk.Parent() != t.blk.Parent() {
+		return false
+	}
+	if v.blk == t.blk {
+		if v.idx > t.idx {
+			return false
+		}
+	} else if !e.mustPassBlocks(v.blk, t.blk) {
+		return false
+	}
+	if v.needOK != nil {
+		if v.needOK == t.blk.Instrs[t.idx] {
+			return false
+		}
+		ok, _ := SuccessDominates(v.needOK, t.blk.Instrs[t.idx])
+		return ok
+	}
+	return true
+}
+
+// viaChain lifts "block b was entered" to the call sites up the call chain: a
+// call of helper G counts as passing b when every return of G lies behind b,
+// or (needOK) when every return of G that may report success does and the
+// caller is on the err == nil edge of the call.
+func (e *c15Eff) viaChain(b *ssa.BasicBlock) []c15Point {
+	cur := c15Point{blk: b, idx: 0}
+	out := []c15Point{cur}
+	for d := 0; d < c15EffDepth+1; d++ {
+		g := cur.blk.Parent()
+		cs := e.site(g)
+		if cs == nil || cs.IsGo() || cs.IsDefer() {
+			break
+		}
+		allOK, nilOK := true, ErrResultIndex(g) >= 0
+		for _, ri := range Returns(g) {
+			if !e.holdsAt(cur, c15Point{blk: ri.Ret.Block(), idx: len(ri.Ret.Block().Instrs) - 1}) {
+				allOK = false
+			}
+		}
+		if !allOK && nilOK {
+			for _, nr := range MaybeNilErrorReturns(g) {
+				at := nr.Ret.Block()
+				if nr.From != nil {
+					at = nr.From
+				}
+				if !e.holdsAt(cur, c15Point{blk: at, idx: len(at.Instrs) - 1}) {
+					nilOK = false
+				}
+			}
+		}
+		next := c15Point{blk: cs.Block(), idx: instrIndex(cs.Instr)}
+		switch {
+		case allOK:
+		case nilOK && cs.Value() != nil:
+			next.needOK = cs.Value()
+		default:
+			return out
+		}
+		out = append(out, next)
+		cur = next
+	}
+	return out
+}
+
+// targetChain: the points that are passed on the way to point t: t itself and
+// the call sites of the enclosing helpers up to the root.
+func (e *c15Eff) targetChain(t c15Point) []c15Point {
+	out := []c15Point{t}
+	f := t.blk.Parent()
+	for d := 0; d < c15EffDepth+1; d++ {
+		cs := e.site(f)
+		if cs == nil {
+			break
+		}
+		out = append(out, c15Point{blk: cs.Block(), idx: instrIndex(cs.Instr)})
+		f = cs.Fn
+	}
+	return out
+}
+
+// mustPass: on every path from the entry of the root to point t, block via has
+// been entered before (interprocedurally, over the effective body).
+func (e *c15Eff) mustPass(via *ssa.BasicBlock, t c15Point) bool {
+	vs := e.viaChain(via)
+	for _, tp := range e.targetChain(t) {
+		for _, vp := range vs {
+			if e.holdsAt(vp, tp) {
+				return true
+			}
+		}
+	}
+	return false
+}
+
+func c15EndOf(b *ssa.BasicBlock) c15Point { return c15Point{blk: b, idx: len(b.Instrs) - 1} }
+
+// liftToRoot: the instructions of the root (or of its literals' triggers in
+// the root) through which instruction in, somewhere in the effective body, is
+// reached: in itself when it is in the root, else the calls/spawns that lead
+// into the helper or literal containing it.
+func (e *c15Eff) liftToRoot(in ssa.Instruction) (out []CallSite, ok bool) {
+	f := in.Parent()
+	if f == e.root {
+		if ci, isCall := in.(ssa.CallInstruction); isCall {
+			return []CallSite{{f, ci}}, true
+		}
+		return nil, false
+	}
+	seen := map[*ssa.Function]bool{}
+	var up func(f *ssa.Function, d int) bool
+	up = func(f *ssa.Function, d int) bool {
+		if seen[f] || d > 2*c15EffDepth+4 {
+			return true
+		}
+		seen[f] = true
+		var ts []CallSite
+		if f.Parent() != nil {
+			ts = c15TriggersIn(f.Parent(), f)
+		} else {
+			ts = e.sites[f]
+		}
+		if len(ts) == 0 {
+			return false
+		}
+		for _, t := range ts {
+			if t.Fn == e.root {
+				out = append(out, t)
+				continue
+			}
+			if !up(t.Fn, d+1) {
+				return false
+			}
+		}
+		return true
+	}
+	ok = up(f, 0)
+	return out, ok
+}
+
+// callPerforms: call c goes to a helper of the effective body whose every
+// return that may report success lies behind a successful call satisfying
+// isP (directly, or through another such helper): on the err == nil edge of c,
+// P has been performed successfully. Returns c's error value.
+func (e *c15Eff) callPerforms(c CallSite, isP func(CallSite) bool, depth int) (ssa.Value, bool) {
+	h := c.Callee()
+	if depth > c15EffDepth || c.Value() == nil || h == nil || !e.in[h] || h.Parent() != nil || h == e.root || ErrResultIndex(h) < 0 {
+		return nil, false
+	}
+	ev, has, discarded := ErrValue(c.Value())
+	if !has || discarded {
+		return nil, false
+	}
+	type pc struct {
+		call *ssa.Call
+		err  ssa.Value
+	}
+	var ps []pc
+	for _, x := range CallsIn(h, false) {
+		if x.Value() == nil {
+			continue
+		}
+		if isP(x) {
+			if xe, xh, xd := ErrValue(x.Value()); xh && !xd {
+				ps = append(ps, pc{x.Value(), xe})
+			}
+		} else if xe, ok := e.callPerforms(x, isP, depth+1); ok {
+			ps = append(ps, pc{x.Value(), xe})
+		}
+	}
+	if len(ps) == 0 {
+		return nil, false
+	}
+	nrs := MaybeNilErrorReturns(h)
+	for _, nr := range nrs {
+		okRet := false
+		at := nr.Ret.Block()
+		if nr.From != nil {
+			at = nr.From
+		}
+		for _, q := range ps {
+			if sameOrigin(nr.Val, q.err) {
+				okRet = true
+			} else if ok, _ := SuccessDominates(q.call, at.Instrs[len(at.Instrs)-1]); ok {
+				okRet = true
+			}
+		}
+		if !okRet {
+			return nil, false
+		}
+	}
+	return ev, true
 }
 
 // ---------------------------------------------------------------------------
@@ -746,31 +1153,75 @@ func c15UploadAfterParts(p *Program, r *Reporter, rule string) int {
 	parentIdx := c15ParamIndex(addFn, c15ParamOfType(addFn, "uploadBytesFuture"))
 	key := FuncKey(fn)
 
+	// the effective body: uploadBytes plus the unexported helpers it calls (the
+	// wait for the children, or the start of the upload, may have been split off)
+	eff := c15Effective(fn)
 	// futures that collect the children
 	var parents []ssa.Value
-	for _, c := range CallsIn(fn, false) {
-		if c.Callee() == addFn {
-			parents = append(parents, c.Args()[parentIdx])
-		}
-	}
-	// error values of Get() on such a future
-	var joinErrs []ssa.Value
-	for _, c := range CallsIn(fn, false) {
-		if c.Callee() != getFn || c.Value() == nil {
+	for _, f := range eff.decl {
+		if f == addFn {
 			continue
 		}
-		for _, pa := range parents {
-			if sameOrigin(c.Args()[0], pa) {
-				if ev, has, discarded := ErrValue(c.Value()); has && !discarded {
-					joinErrs = append(joinErrs, ev)
-				}
+		for _, c := range CallsIn(f, false) {
+			if c.Callee() == addFn {
+				parents = append(parents, c.Args()[parentIdx])
 			}
 		}
 	}
+	isParentGet := func(c CallSite) bool {
+		if c.Callee() != getFn || c.Value() == nil {
+			return false
+		}
+		for _, pa := range parents {
+			if sameOrigin(c.Args()[0], pa) || eff.resolve(c.Args()[0]) == eff.resolve(pa) || sameOrigin(eff.resolve(c.Args()[0]), eff.resolve(pa)) {
+				return true
+			}
+		}
+		return false
+	}
+	// error values of Get() on such a future, or of a helper that reports success
+	// only after such a Get() succeeded
+	var joinErrs []ssa.Value
+	for _, c := range CallsIn(fn, false) {
+		if isParentGet(c) {
+			if ev, has, discarded := ErrValue(c.Value()); has && !discarded {
+				joinErrs = append(joinErrs, ev)
+			}
+			continue
+		}
+		if ev, ok := eff.callPerforms(c, isParentGet, 0); ok {
+			joinErrs = append(joinErrs, ev)
+		}
+	}
 	// triggers of the upload of bb's own JSON
-	isBB := func(v ssa.Value) bool { return v == ssa.Value(bb) }
+	var isBBd func(d int) func(v ssa.Value) bool
+	isBBd = func(d int) func(v ssa.Value) bool {
+		return func(v ssa.Value) bool {
+			if v == ssa.Value(bb) {
+				return true
+			}
+			// a helper's parameter: the argument of any of its call sites
+			if prm, ok := v.(*ssa.Parameter); ok && prm.Parent() != fn && d < c15EffDepth {
+				idx := c15ParamIndex(prm.Parent(), prm)
+				for _, cs := range eff.sites[prm.Parent()] {
+					if args := cs.Args(); idx >= 0 && idx < len(args) && DependsOn(args[idx], isBBd(d+1)) {
+						return true
+					}
+				}
+			}
+			return false
+		}
+	}
+	isBB := isBBd(0)
 	triggers := map[ssa.Instruction]CallSite{}
-	for _, c := range CallsIn(fn, true) {
+	var candCalls []CallSite
+	for _, f := range eff.funcs {
+		if f == addFn || TopFunc(f) == addFn {
+			continue // the children's own uploads
+		}
+		candCalls = append(candCalls, CallsIn(f, false)...)
+	}
+	for _, c := range candCalls {
 		if !c15IsBlobUploader(c, upStr) {
 			continue
 		}
@@ -787,9 +1238,9 @@ func c15UploadAfterParts(p *Program, r *Reporter, rule string) int {
 			triggers[c.Instr] = c
 			continue
 		}
-		ts := c15TriggersIn(fn, c.Fn)
-		if len(ts) == 0 {
-			r.Undecided(rule, key+"#own-schema-upload", p.Pos(c.Pos()), "the literal that uploads the builder's JSON is not called or spawned directly in uploadBytes: cannot order it against the children")
+		ts, ok := eff.liftToRoot(c.Instr)
+		if !ok || len(ts) == 0 {
+			r.Undecided(rule, key+"#own-schema-upload", p.Pos(c.Pos()), "the literal or helper that uploads the builder's JSON is not called or spawned from uploadBytes in a way the analysis follows: cannot order it against the children")
 			return 1
 		}
 		for _, t := range ts {
@@ -958,6 +1409,24 @@ func c15FuturesOwned(p *Program, r *Reporter, rule string) int {
 				return "Get() is called on it", c.Value()
 			}
 		}
+		// handed to an unexported helper that reports success only after Get() on it succeeded
+		eff := c15Effective(fn)
+		for _, c := range CallsIn(fn, false) {
+			h := c.Callee()
+			if h == nil || !eff.in[h] || h.Parent() != nil || h == fn || c.Value() == nil {
+				continue
+			}
+			for i, a := range c.Args() {
+				if !sameOrigin(a, v) || i >= len(h.Params) {
+					continue
+				}
+				prm := h.Params[i]
+				isGet := func(x CallSite) bool { return x.Callee() == getFn && x.Value() != nil && sameOrigin(x.Args()[0], prm) }
+				if _, ok := eff.callPerforms(c, isGet, 0); ok {
+					return "Get() is called on it by " + h.Name() + ", whose error reports the outcome", c.Value()
+				}
+			}
+		}
 		for _, ri := range Returns(fn) {
 			for _, res := range ri.Results {
 				if sameOrigin(res, v) {
@@ -1084,7 +1553,15 @@ func c15ChunksJoined(p *Program, r *Reporter, rule string) int {
 	fn := p.Func("pkg/schema", "", "writeFileChunks")
 	upStr := p.Func("pkg/schema", "", "uploadString")
 	key := FuncKey(fn)
-	all := c15AllFuncs(fn)
+	// the effective body: writeFileChunks, the unexported helpers it calls
+	// (the tail that joins the uploads may have been split off), and their literals
+	eff := c15Effective(fn)
+	var all []*ssa.Function
+	for _, f := range eff.funcs {
+		if f != upStr && TopFunc(f) != upStr {
+			all = append(all, f)
+		}
+	}
 	n := 0
 
 	// upload goroutines: literals started with `go` that (deep) call the uploader
@@ -1128,7 +1605,7 @@ func c15ChunksJoined(p *Program, r *Reporter, rule string) int {
 					if ch == nil || !isErrorType(val.Type()) {
 						continue
 					}
-					errChans[originValue(ch)] = true
+					errChans[eff.resolve(ch)] = true
 					if k, isNil := NilFact(b, val); !(k && !isNil) {
 						sendsNonNil = false
 						sendBad = fmt.Sprintf("value sent at line %d is not known non-nil", c15Line(p, in.Pos()))
@@ -1169,7 +1646,7 @@ func c15ChunksJoined(p *Program, r *Reporter, rule string) int {
 					if st.Dir != types.RecvOnly {
 						continue
 					}
-					if originValue(st.Chan) == errChan {
+					if eff.resolve(st.Chan) == errChan {
 						rs := recvSel{sel: sel, only: len(sel.States) == 1}
 						for _, ref := range *sel.Referrers() {
 							if ex, ok := ref.(*ssa.Extract); ok {
@@ -1197,11 +1674,40 @@ func c15ChunksJoined(p *Program, r *Reporter, rule string) int {
 		return false
 	}
 	// emptyEdge: block b is on the 'nothing received' edge of rs
-	emptyEdge := func(b *ssa.BasicBlock, rs recvSel) bool {
+	var emptyEdge func(b *ssa.BasicBlock, rs recvSel) bool
+	emptyEdge = func(b *ssa.BasicBlock, rs recvSel) bool {
 		if !rs.only || rs.idx == nil {
 			return false
 		}
-		for _, f := range FactsAt(b) {
+		// the poll sits in a helper: b is on the err == nil edge of a call of
+		// that helper, and the helper reports success only where nothing was received
+		if h := rs.sel.Parent(); h != b.Parent() && h.Parent() == nil && h != fn && ErrResultIndex(h) >= 0 {
+			nrs := MaybeNilErrorReturns(h)
+			okH := len(nrs) > 0
+			for _, nr := range nrs {
+				if isRecvVal(nr.Val) && sendsNonNil {
+					continue // hands back the (non-nil) error it received
+				}
+				at := nr.Ret.Block()
+				if nr.From != nil {
+					at = nr.From
+				}
+				if !emptyEdge(at, rs) {
+					okH = false
+				}
+			}
+			if okH {
+				for _, c := range eff.sites[h] {
+					if c.Value() == nil || c.Fn != b.Parent() {
+						continue
+					}
+					if ok, _ := SuccessDominates(c.Value(), b.Instrs[len(b.Instrs)-1]); ok {
+						return true
+					}
+				}
+			}
+		}
+		for _, f := range eff.ctxFacts(b) {
 			cond, val := c15StripNot(f.Cond, f.Val)
 			bo, ok := cond.(*ssa.BinOp)
 			if !ok || bo.X != ssa.Value(rs.idx) {
@@ -1229,13 +1735,13 @@ func c15ChunksJoined(p *Program, r *Reporter, rule string) int {
 		var g ssa.Value
 		for _, c := range CallsIn(sp.site.Fn, false) {
 			if c.IsStatic("go4.org/syncutil", "Gate", "Start") && Precedes(c.Instr, sp.site.Instr) {
-				g = originValue(c.Args()[0])
+				g = eff.resolve(c.Args()[0])
 			}
 		}
 		done := false
 		if g != nil {
 			for _, c := range CallsIn(sp.worker, false) {
-				if c.IsStatic("go4.org/syncutil", "Gate", "Done") && originValue(c.Args()[0]) == g {
+				if c.IsStatic("go4.org/syncutil", "Gate", "Done") && eff.resolve(c.Args()[0]) == g {
 					done = true
 				}
 			}
@@ -1256,15 +1762,21 @@ func c15ChunksJoined(p *Program, r *Reporter, rule string) int {
 	if gate != nil {
 		capN := int64(-1)
 		if mk, ok := gate.(*ssa.Call); ok && (CallSite{mk.Parent(), mk}).IsStatic("go4.org/syncutil", "", "NewGate") {
-			if k, ok := ConstInt(mk.Call.Args[0]); ok {
+			if k, ok := eff.constInt(mk.Call.Args[0]); ok {
 				capN = k
 			}
 		}
-		for _, c := range CallsIn(fn, false) {
-			if !c.IsStatic("go4.org/syncutil", "Gate", "Start") || originValue(c.Args()[0]) != gate || !inLoop(c.Block()) {
+		var drainCands []CallSite
+		for _, f := range eff.decl {
+			if f != upStr {
+				drainCands = append(drainCands, CallsIn(f, false)...)
+			}
+		}
+		for _, c := range drainCands {
+			if !c.IsStatic("go4.org/syncutil", "Gate", "Start") || eff.resolve(c.Args()[0]) != gate || !inLoop(c.Block()) {
 				continue
 			}
-			trip, hdr, ok := c15TripCount(c.Block())
+			trip, hdr, ok := c15TripCount(eff, c.Block())
 			switch {
 			case capN < 0:
 				drainWhy = "the gate's capacity is not a constant"
@@ -1317,12 +1829,42 @@ func c15ChunksJoined(p *Program, r *Reporter, rule string) int {
 		}
 		return false, ""
 	}
-	ei := ErrResultIndex(fn)
-	rets := Returns(fn)
-	sort.Slice(rets, func(i, j int) bool { return rets[i].Ret.Pos() < rets[j].Ret.Pos() })
+	// the returns of the effective body: a return that hands on the results of a
+	// helper (return helper(...)) is replaced by the helper's own returns
+	type effRet struct {
+		ri ReturnInfo
+		ei int
+	}
+	var rets []effRet
+	var expand func(g *ssa.Function, d int)
+	expand = func(g *ssa.Function, d int) {
+		gi := ErrResultIndex(g)
+		rs := Returns(g)
+		sort.Slice(rs, func(i, j int) bool { return rs[i].Ret.Pos() < rs[j].Ret.Pos() })
+		for _, ri := range rs {
+			var call *ssa.Call
+			idx := 0
+			switch x := originValue(ri.Results[gi]).(type) {
+			case *ssa.Extract:
+				call, _ = x.Tuple.(*ssa.Call)
+				idx = x.Index
+			case *ssa.Call:
+				call = x
+			}
+			if call != nil && d < c15EffDepth {
+				if h := (CallSite{call.Parent(), call}).Callee(); h != nil && h != fn && h != g && h.Parent() == nil && eff.in[h] && ErrResultIndex(h) == idx && call.Block() == ri.Ret.Block() {
+					expand(h, d+1)
+					continue
+				}
+			}
+			rets = append(rets, effRet{ri, gi})
+		}
+	}
+	expand(fn, 0)
 	succ, fail := 0, 0
-	for _, ri := range rets {
+	for _, er := range rets {
 		n++
+		ri, ei := er.ri, er.ei
 		e := ri.Results[ei]
 		blk := ri.Ret.Block()
 		if !IsNilConst(e) {
@@ -1353,16 +1895,16 @@ func c15ChunksJoined(p *Program, r *Reporter, rule string) int {
 		}
 		var via *recvSel
 		for i := range recvs {
-			if recvs[i].sel.Parent() == fn && emptyEdge(blk, recvs[i]) {
+			if recvs[i].sel.Parent().Parent() == nil && emptyEdge(blk, recvs[i]) {
 				via = &recvs[i]
 			}
 		}
 		switch {
-		case !c15MustPass(fn, drainHdr, blk):
+		case !eff.mustPass(drainHdr, c15EndOf(blk)):
 			r.Violation(rule, construct, p.Pos(ri.Ret.Pos()), "this return can report success (error nil or not known non-nil) on a path that does not pass the loop taking all tokens of the upload gate: chunk uploads may still be running, their errors are lost and the file references blobs that were never stored")
 		case via == nil:
 			r.Violation(rule, construct, p.Pos(ri.Ret.Pos()), "this return can report success without being on the 'nothing received' edge of a non-blocking receive from the upload goroutines' error channel: a failed chunk upload is reported as success")
-		case !c15MustPass(fn, drainHdr, via.sel.Block()) || via.sel.Block() == drainHdr || c15Reaches(via.sel.Block(), drainHdr):
+		case !eff.mustPass(drainHdr, c15Point{blk: via.sel.Block(), idx: instrIndex(via.sel)}) || via.sel.Block() == drainHdr || (via.sel.Parent() == drainHdr.Parent() && c15Reaches(via.sel.Block(), drainHdr)):
 			r.Violation(rule, construct, p.Pos(ri.Ret.Pos()), "the error channel is polled before all tokens of the upload gate were taken: uploads still in flight can fail after the poll")
 		default:
 			r.OK(rule, construct, p.Pos(ri.Ret.Pos()), "success only after the loop that takes every token of the upload gate (trip count == capacity) and then finding the error channel empty")
@@ -1463,7 +2005,7 @@ func c15FalseMeansErrStored(lit *ssa.Function, cell ssa.Value, isRecvVal func(ss
 // c15TripCount: the number of iterations of the counted loop containing block
 // body: a phi P = [0, P+1] and an exit test `P < K` (before the body) or
 // `P+1 < K` (rotated, after the body), K constant.
-func c15TripCount(body *ssa.BasicBlock) (int64, *ssa.BasicBlock, bool) {
+func c15TripCount(e *c15Eff, body *ssa.BasicBlock) (int64, *ssa.BasicBlock, bool) {
 	fn := body.Parent()
 	for _, b := range fn.Blocks {
 		for _, in := range b.Instrs {
@@ -1508,7 +2050,7 @@ func c15TripCount(body *ssa.BasicBlock) (int64, *ssa.BasicBlock, bool) {
 				if !ok || bo.Op != token.LSS {
 					continue
 				}
-				k, ok := ConstInt(bo.Y)
+				k, ok := e.constInt(bo.Y)
 				if !ok {
 					continue
 				}
@@ -1584,7 +2126,7 @@ func (l c15Lin) equals(want map[string]int64) bool {
 
 // c15LinOf evaluates v as a linear form over atoms. atom(v) names the atoms the
 // caller cares about ("" = not an atom, descend or make an opaque atom).
-func c15LinOf(v ssa.Value, atom func(ssa.Value) string) c15Lin {
+func c15LinOf(e *c15Eff, v ssa.Value, atom func(ssa.Value) string) c15Lin {
 	var ev func(v ssa.Value, d int) c15Lin
 	ev = func(v ssa.Value, d int) c15Lin {
 		if d > 40 {
@@ -1592,6 +2134,14 @@ func c15LinOf(v ssa.Value, atom func(ssa.Value) string) c15Lin {
 		}
 		if a := atom(v); a != "" {
 			return c15Lin{map[string]int64{a: 1}, 0, true}
+		}
+		switch v.(type) {
+		case *ssa.Parameter, *ssa.Extract, *ssa.Call:
+			// a helper's parameter stands for the caller's argument, a helper's
+			// result for the value it returns
+			if rv := e.resolve(v); rv != v {
+				return ev(rv, d+1)
+			}
 		}
 		switch x := v.(type) {
 		case *ssa.Const:
@@ -1642,7 +2192,7 @@ func c15LinOf(v ssa.Value, atom func(ssa.Value) string) c15Lin {
 
 // c15PartField: v is a load of field `name` of a *BytesPart that is element
 // [0] of slice value s; returns s.
-func c15PartField(v ssa.Value, name string) (slice ssa.Value, ok bool) {
+func c15PartField(e *c15Eff, v ssa.Value, name string) (slice ssa.Value, ok bool) {
 	ld, isLoad := v.(*ssa.UnOp)
 	if !isLoad || ld.Op != token.MUL {
 		return nil, false
@@ -1654,11 +2204,12 @@ func c15PartField(v ssa.Value, name string) (slice ssa.Value, ok bool) {
 	if nt := NamedOf(fa.X.Type()); nt == nil || nt.Obj().Name() != "BytesPart" || RelPkg(nt.Obj().Pkg()) != "pkg/schema" {
 		return nil, false
 	}
-	base := fa.X
+	// the part may have been handed to a helper, or hoisted into a local
+	base := e.resolve(fa.X)
 	if bl, ok := base.(*ssa.UnOp); ok && bl.Op == token.MUL {
 		if ia, ok := bl.X.(*ssa.IndexAddr); ok {
-			if k, ok := ConstInt(ia.Index); ok && k == 0 {
-				return ia.X, true
+			if k, ok := e.constInt(ia.Index); ok && k == 0 {
+				return e.resolve(ia.X), true
 			}
 		}
 	}
@@ -1693,14 +2244,15 @@ func c15IsCmp(op token.Token) bool {
 }
 
 // c15LenFacts: what facts say about len(slice): +1 non-empty, -1 empty, 0 nothing.
-func c15LenFacts(facts []CondFact, slice ssa.Value) int {
+func c15LenFacts(e *c15Eff, facts []CondFact, slice ssa.Value) int {
+	slice = e.resolve(slice)
 	isLen := func(v ssa.Value) bool {
 		c, ok := v.(*ssa.Call)
 		if !ok {
 			return false
 		}
 		b, ok := c.Call.Value.(*ssa.Builtin)
-		return ok && b.Name() == "len" && len(c.Call.Args) == 1 && c.Call.Args[0] == slice
+		return ok && b.Name() == "len" && len(c.Call.Args) == 1 && e.resolve(c.Call.Args[0]) == slice
 	}
 	for _, f := range facts {
 		cond, val := c15StripNot(f.Cond, f.Val)
@@ -1709,9 +2261,9 @@ func c15LenFacts(facts []CondFact, slice ssa.Value) int {
 			continue
 		}
 		var truth func(l int64) bool
-		if k, ok := ConstInt(bo.Y); ok && isLen(bo.X) {
+		if k, ok := e.constInt(bo.Y); ok && isLen(bo.X) {
 			truth = func(l int64) bool { return c15CmpHolds(l, bo.Op, k) }
-		} else if k, ok := ConstInt(bo.X); ok && isLen(bo.Y) {
+		} else if k, ok := e.constInt(bo.X); ok && isLen(bo.Y) {
 			truth = func(l int64) bool { return c15CmpHolds(k, bo.Op, l) }
 		} else {
 			continue
@@ -1731,7 +2283,7 @@ func c15LenFacts(facts []CondFact, slice ssa.Value) int {
 }
 
 // c15InsideFact: do the facts imply inPartOffset (R) < Size of parts[0]?
-func c15InsideFact(facts []CondFact, R ssa.Value, parts ssa.Value) bool {
+func c15InsideFact(e *c15Eff, facts []CondFact, R ssa.Value, parts ssa.Value) bool {
 	strip := func(v ssa.Value) ssa.Value {
 		for {
 			if cv, ok := v.(*ssa.Convert); ok {
@@ -1741,8 +2293,16 @@ func c15InsideFact(facts []CondFact, R ssa.Value, parts ssa.Value) bool {
 			return v
 		}
 	}
-	isSize := func(v ssa.Value) bool { s, ok := c15PartField(strip(v), "Size"); return ok && s == parts }
-	isR := func(v ssa.Value) bool { return strip(v) == R }
+	parts = e.resolve(parts)
+	isSize := func(v ssa.Value) bool {
+		v = strip(v)
+		if s, ok := c15PartField(e, v, "Size"); ok && s == parts {
+			return true
+		}
+		s, ok := c15PartField(e, e.resolve(v), "Size")
+		return ok && s == parts
+	}
+	isR := func(v ssa.Value) bool { return strip(v) == R || e.resolve(strip(v)) == R }
 	for _, f := range facts {
 		cond, val := c15StripNot(f.Cond, f.Val)
 		bo, ok := cond.(*ssa.BinOp)
@@ -1770,39 +2330,78 @@ func c15InsideFact(facts []CondFact, R ssa.Value, parts ssa.Value) bool {
 // skips leading parts (header = R's block), R < Size(parts[0]) is known.
 // Edges out of the loop that imply an empty part list are infeasible when
 // `at` is known to have a non-empty list.
-func c15PartNotExhausted(at *ssa.BasicBlock, R *ssa.Phi, parts ssa.Value) (bool, string) {
-	if c15InsideFact(FactsAt(at), R, parts) {
+func c15PartNotExhausted(e *c15Eff, at *ssa.BasicBlock, R *ssa.Phi, parts ssa.Value) (bool, string) {
+	ctx := e.ctxFacts(at)
+	if c15InsideFact(e, ctx, R, parts) {
 		return true, "dominating comparison"
 	}
 	hdr := R.Block()
+	lf := hdr.Parent()
 	inLoopBlk := func(b *ssa.BasicBlock) bool {
 		return (b == hdr || hdr.Dominates(b)) && (b == hdr || c15Reaches(b, hdr))
 	}
-	// the first block on at's dominator chain that lies outside the loop and has a predecessor inside
-	var join *ssa.BasicBlock
-	for d := at; d != nil; d = d.Idom() {
-		if inLoopBlk(d) {
+	// the blocks of the loop's function through which the reader is reached:
+	// the reader's own block (or the call leading to it) when the loop is in an
+	// enclosing function, the returns of the loop's function when the loop was
+	// moved into a helper that is called before the reader is built
+	chain := e.targetChain(c15EndOf(at))
+	var ds []*ssa.BasicBlock
+	for _, tp := range chain {
+		if tp.blk.Parent() == lf {
+			ds = []*ssa.BasicBlock{tp.blk}
 			break
 		}
-		for _, pr := range d.Preds {
-			if inLoopBlk(pr) {
-				join = d
+	}
+	if ds == nil {
+		g := lf
+		for d := 0; d < c15EffDepth+1 && ds == nil; d++ {
+			cs := e.site(g)
+			if cs == nil || cs.Value() == nil {
+				break
+			}
+			for _, tp := range chain {
+				if tp.blk.Parent() != cs.Fn {
+					continue
+				}
+				if (cs.Block() == tp.blk && instrIndex(cs.Instr) < tp.idx) || (cs.Block() != tp.blk && cs.Block().Dominates(tp.blk)) {
+					for _, ri := range Returns(lf) {
+						ds = append(ds, ri.Ret.Block())
+					}
+				}
+			}
+			g = cs.Fn
+		}
+	}
+	if len(ds) == 0 {
+		return false, "the part-skipping loop is not executed on the way to the reader"
+	}
+	atLen := c15LenFacts(e, ctx, parts)
+	feasible := 0
+	for _, dd := range ds {
+		// the first block on dd's dominator chain that lies outside the loop and has a predecessor inside
+		var join *ssa.BasicBlock
+		for d := dd; d != nil; d = d.Idom() {
+			if inLoopBlk(d) {
+				break
+			}
+			for _, pr := range d.Preds {
+				if inLoopBlk(pr) {
+					join = d
+				}
 			}
 		}
-	}
-	if join == nil {
-		return false, "no exit of the part-skipping loop dominates the reader"
-	}
-	atLen := c15LenFacts(FactsAt(at), parts)
-	feasible := 0
-	for _, pr := range join.Preds {
-		ef := c15EdgeFacts(pr, join)
-		if l := c15LenFacts(ef, parts); l != 0 && atLen != 0 && l != atLen {
-			continue // this way out contradicts what is known about len(parts) at the reader
+		if join == nil {
+			return false, "no exit of the part-skipping loop dominates the reader"
 		}
-		feasible++
-		if !c15InsideFact(ef, R, parts) {
-			return false, fmt.Sprintf("the loop can be left through block %d without inPartOffset < part.Size being established", pr.Index)
+		for _, pr := range join.Preds {
+			ef := c15EdgeFacts(pr, join)
+			if l := c15LenFacts(e, ef, parts); l != 0 && atLen != 0 && l != atLen {
+				continue // this way out contradicts what is known about len(parts) at the reader
+			}
+			feasible++
+			if !c15InsideFact(e, ef, R, parts) {
+				return false, fmt.Sprintf("the loop can be left through block %d of %s without inPartOffset < part.Size being established", pr.Index, lf.Name())
+			}
 		}
 	}
 	if feasible == 0 {
@@ -1818,7 +2417,7 @@ type c15ReaderLeaf struct {
 }
 
 // c15ReaderLeaves: what the returned reader reads from.
-func c15ReaderLeaves(v ssa.Value) []c15ReaderLeaf {
+func c15ReaderLeaves(e *c15Eff, v ssa.Value) []c15ReaderLeaf {
 	var out []c15ReaderLeaf
 	seen := map[ssa.Value]bool{}
 	hasRead := func(t types.Type) bool {
@@ -1861,11 +2460,23 @@ func c15ReaderLeaves(v ssa.Value) []c15ReaderLeaf {
 			case cs.IsStatic("io", "", "NopCloser"):
 				walk(x.Call.Args[0], d+1)
 			default:
-				if f := cs.Callee(); f != nil && InModule(f) {
+				f := cs.Callee()
+				if f != nil && e.in[f] && f.Parent() == nil && f != e.root && f.Signature.Results().Len() == 1 {
+					// a helper of the effective body: what it returns
+					for _, ri := range Returns(f) {
+						walk(ri.Results[0], d+1)
+					}
+				} else if f != nil && InModule(f) {
 					out = append(out, c15ReaderLeaf{"opaque", x, v})
 				} else {
 					out = append(out, c15ReaderLeaf{"unbounded", x, v})
 				}
+			}
+		case *ssa.Parameter:
+			if rv := e.resolve(x); rv != ssa.Value(x) {
+				walk(rv, d+1)
+			} else {
+				out = append(out, c15ReaderLeaf{"opaque", nil, v})
 			}
 		case *ssa.UnOp:
 			if x.Op != token.MUL {
@@ -1908,6 +2519,16 @@ func c15ReaderLeaves(v ssa.Value) []c15ReaderLeaf {
 			}
 			out = append(out, c15ReaderLeaf{"opaque", nil, v})
 		case *ssa.Extract:
+			if call, ok := x.Tuple.(*ssa.Call); ok {
+				if f := (CallSite{call.Parent(), call}).Callee(); f != nil && e.in[f] && f.Parent() == nil && f != e.root {
+					for _, ri := range Returns(f) {
+						if x.Index < len(ri.Results) {
+							walk(ri.Results[x.Index], d+1)
+						}
+					}
+					return
+				}
+			}
 			out = append(out, c15ReaderLeaf{"unbounded", nil, v})
 		default:
 			out = append(out, c15ReaderLeaf{"unbounded", nil, v})
@@ -1934,10 +2555,17 @@ func c15RuleRBound(p *Program, r *Reporter) {
 	if off == nil {
 		brokenf("anchor unresolved: int64 offset parameter of %s", key)
 	}
-	// R: phi [off, R - Size(parts[0])] with parts a slice phi consumed from the front
+	// R: phi [off, R - Size(parts[0])] with parts a slice phi consumed from the front;
+	// looked for in the effective body (the loop may live in a helper that is
+	// handed the offset)
+	eff := c15Effective(fn)
 	var R *ssa.Phi
 	var partsPhi ssa.Value
-	for _, b := range fn.Blocks {
+	var allBlocks []*ssa.BasicBlock
+	for _, f := range eff.funcs {
+		allBlocks = append(allBlocks, f.Blocks...)
+	}
+	for _, b := range allBlocks {
 		for _, in := range b.Instrs {
 			ph, ok := in.(*ssa.Phi)
 			if !ok {
@@ -1946,7 +2574,7 @@ func c15RuleRBound(p *Program, r *Reporter) {
 			okShape, sawOff, sawSub := true, false, false
 			var sl ssa.Value
 			for _, e := range ph.Edges {
-				if e == ssa.Value(off) {
+				if e == ssa.Value(off) || eff.resolve(e) == ssa.Value(off) {
 					sawOff = true
 					continue
 				}
@@ -1959,7 +2587,7 @@ func c15RuleRBound(p *Program, r *Reporter) {
 				if cv, ok := y.(*ssa.Convert); ok {
 					y = cv.X
 				}
-				s, ok := c15PartField(y, "Size")
+				s, ok := c15PartField(eff, y, "Size")
 				if !ok || (sl != nil && sl != s) {
 					okShape = false
 					continue
@@ -1994,8 +2622,14 @@ func c15RuleRBound(p *Program, r *Reporter) {
 			return "inPartOffset"
 		}
 		for _, f := range []string{"Size", "Offset"} {
-			if s, ok := c15PartField(v, f); ok && s == partsPhi {
+			if s, ok := c15PartField(eff, v, f); ok && s == partsPhi {
 				return "part." + f
+			}
+		}
+		switch v.(type) {
+		case *ssa.Extract, *ssa.Call, *ssa.Parameter, *ssa.UnOp:
+			if eff.resolve(v) == ssa.Value(R) {
+				return "inPartOffset"
 			}
 		}
 		return ""
@@ -2008,7 +2642,7 @@ func c15RuleRBound(p *Program, r *Reporter) {
 		if IsNilConst(rv) {
 			continue
 		}
-		for _, lf := range c15ReaderLeaves(rv) {
+		for _, lf := range c15ReaderLeaves(eff, rv) {
 			switch lf.kind {
 			case "nil", "empty":
 				continue
@@ -2022,14 +2656,14 @@ func c15RuleRBound(p *Program, r *Reporter) {
 				}
 				kinds[role]++
 				construct := key + "#bound:" + role
-				lin := c15LinOf(lf.call.Call.Args[1], atom)
+				lin := c15LinOf(eff, lf.call.Call.Args[1], atom)
 				want := map[string]int64{"part.Size": 1, "inPartOffset": -1}
 				r.Check(lin.equals(want), rule, construct, p.Pos(lf.call.Pos()),
 					"byte bound of the returned reader = part.Size - inPartOffset (what is left of the part after the in-part start offset)",
 					fmt.Sprintf("byte bound of the returned reader is [%s], not [part.Size - inPartOffset]: a read that starts inside the part runs past the part's end into bytes of the blob that do not belong to the file at this position (e.g. parts {blob \"0123456789\" size 5},{blob \"abcde\" size 5}: ReadAt(len 8, off 2) yields \"23456cde\" instead of \"234abcde\")", lin))
 				// the part the bound is taken from is not exhausted: inPartOffset < part.Size
 				n++
-				okProg, why := c15PartNotExhausted(lf.call.Block(), R, partsPhi)
+				okProg, why := c15PartNotExhausted(eff, lf.call.Block(), R, partsPhi)
 				r.Check(okProg, rule, key+"#progress:"+role, p.Pos(lf.call.Pos()),
 					"on every feasible way out of the part-skipping loop inPartOffset < part.Size holds, so the returned reader yields at least one byte ("+why+")",
 					"the part selected for the reader may be exhausted already (inPartOffset == part.Size is possible: "+why+"): a zero-length reader is returned at a part boundary and ReadAt/Read stop short in the middle of the file")
@@ -2050,15 +2684,19 @@ func c15RuleRBound(p *Program, r *Reporter) {
 
 	// (2) every Seek on the part's data: to inPartOffset + part.Offset from the start
 	seeks := 0
-	for _, c := range CallsIn(fn, false) {
+	var seekCalls []CallSite
+	for _, f := range eff.decl {
+		seekCalls = append(seekCalls, CallsIn(f, false)...)
+	}
+	for _, c := range seekCalls {
 		if c.MethodName() != "Seek" || c.Value() == nil || len(c.Args()) != 3 {
 			continue
 		}
 		seeks++
 		n++
 		construct := key + "#seek"
-		lin := c15LinOf(c.Args()[1], atom)
-		wh, okWh := ConstInt(c.Args()[2])
+		lin := c15LinOf(eff, c.Args()[1], atom)
+		wh, okWh := eff.constInt(c.Args()[2])
 		want := map[string]int64{"part.Offset": 1, "inPartOffset": 1}
 		okSeek := lin.equals(want) && okWh && wh == 0
 		// skipping the Seek is allowed only where the target is known to be 0 (not > 0)
